@@ -75,13 +75,12 @@ def _worker(args):
             rec.update(status="unsat", backend="simplifier", seconds=0.0)
         else:
             try:
-                q = solve.build_query(ob, res.str_axioms)
-                r = solve.solve_one((ob.name, q, timeout, True))
+                r = solve.decide(ob, res.str_axioms, timeout, True)
                 rec.update(status=r[1], backend=r[2], seconds=r[3], model=r[4], tried=r[5])
                 if r[1] != "unsat" or i < 1:
-                    rec["smt2"] = q[0] if len(q[0]) < 60000 else q[0][:60000] + "\n; ... truncated"
+                    rec["smt2"] = r[6] if len(r[6]) < 60000 else r[6][:60000] + "\n; ... truncated"
                 if tier == "thorough" and r[1] == "unsat":
-                    r2 = solve._solve_cvc5(q[0], 60)
+                    r2 = solve._solve_cvc5(r[6], 60)
                     rec["second_solver"] = r2[0]
             except Exception as e:
                 rec.update(status="error", backend="-", seconds=0.0, error="%s\n%s" % (e, traceback.format_exc()))
@@ -129,7 +128,7 @@ def canary():
     from .state import Obligation
     x = z3.Real("canary_x")
     ob = Obligation("canary", [x > 0], x > 1)
-    r = solve.solve_one(("canary", solve.build_query(ob, []), 5000, False))
+    r = solve.decide(ob, [], 5000, False)
     return r[1] == "sat"
 
 
